@@ -131,3 +131,40 @@ func HarnessGTValueSemanticsReplay(p0, p1 int) {
 		vassert(ok, id)
 	}
 }
+
+// C20 — obtaining the generator / neutral element of GT (Base, Null, Mul by the implicit generator) for a point of
+// one's own only READS what is shared (the suite, package-level constants): no store to memory that existed before.
+func HarnessGTSharedReadOnly(p0 int) {
+	s := mod.NewInt64(int64(nondetIntRange(2, 1000)), OrderMod)
+	effectsBegin()
+	a := newPointGT()
+	switch p0 {
+	case 0:
+		a.Base()
+	case 1:
+		a.Null()
+	case 2:
+		a.Mul(s, nil)
+	}
+	effectsEnd()
+	vreach("end")
+}
+
+// race confirmation: goroutines that share nothing but the package each set their own point to the generator, first thing
+func RaceGTSharedReadOnly(p0 int) {
+	done := make(chan bool)
+	for g := 0; g < 4; g++ {
+		go func() {
+			for k := 0; k < 3; k++ {
+				a := newPointGT()
+				a.Base()
+				b := newPointGT()
+				b.Mul(mod.NewInt64(3, OrderMod), nil)
+			}
+			done <- true
+		}()
+	}
+	for g := 0; g < 4; g++ {
+		<-done
+	}
+}
